@@ -79,11 +79,11 @@ static void producer(void)
 {
 	static const int gzs[] = { IGZIP_GZIP, IGZIP_GZIP_NO_HDR, IGZIP_ZLIB, IGZIP_ZLIB_NO_HDR };
 	static const int lens[] = { 0, 1, 5, 258, 300, 4096, 8193, 70000 };
-	static const int pats[] = { PAT_TEXT, PAT_XS, PAT_ZERO };
+	static const int pats[] = { PAT_TEXT, PAT_XS, PAT_ZERO, PAT_LOG };
 	static const int cpus[] = { CPU_BASE, CPU_SSE, CPU_AVX2, CPU_AVX512G2 };
 	char key[300], why[256];
 	for (unsigned li = 0; li < sizeof lens / sizeof lens[0]; li++)
-		for (int pi = 0; pi < 3; pi++) {
+		for (int pi = 0; pi < 4; pi++) {
 			if (!v_mine(unit++))
 				continue;
 			int len = lens[li];
@@ -184,6 +184,56 @@ static void producer_runs(void)
 						}
 						v_nontrivial(v_mix(0x9a17 + li, pi * 64 + level * 16 + gi * 2 + huff));
 					}
+	/* incompressible inputs whose stored-block form needs one more 5-byte block header than the length below: output space from 12
+	 * bytes under the documented bound up to the bound: whatever the call returns as COMP_OK must be a complete stream WITH its trailer */
+	{
+		static const int slens[] = { 65535, 65536, 65537, 131070, 131071, 131072 };
+		for (int li = 0; li < 6; li++)
+			for (int level = 0; level <= 3; level++)
+				for (int gi = 0; gi < 4; gi++) {
+					if (!v_mine(unit++))
+						continue;
+					if (nfail > 40 || v_deadline_hit())
+						return;
+					int len = slens[li];
+					fill_xorshift(IN, len, 4242 + li);
+					size_t bound = stateless_bound(len, gzs[gi]);
+					int cpu = cpus[(li + level + gi) % 3];
+					cpu_set_level(cpu);
+					for (size_t ao = bound - 12; ao <= bound; ao++) {
+						struct isal_zstream *s = g_alloc(sizeof *s, G_END);
+						uint8_t *lb = level ? g_alloc(lvl_min[level], G_END) : NULL, *out = g_alloc(ao, G_END);
+						int r = -999;
+						if (V_TRY()) {
+							isal_deflate_stateless_init(s);
+							s->level = level; s->level_buf = lb; s->level_buf_size = level ? lvl_min[level] : 0;
+							s->gzip_flag = gzs[gi];
+							s->next_in = IN; s->avail_in = len; s->end_of_stream = 1; s->next_out = out; s->avail_out = ao;
+							r = isal_deflate_stateless(s);
+							V_END();
+						}
+						v_eval();
+						snprintf(key, sizeof key, "producer one-shot stored level=%d wrapper=%s cpu=%s input=incompressible:%d avail_out=bound-%zu", level, gz_name[gzs[gi]], cpu_level_name[cpu], len, bound - ao);
+						if (r == COMP_OK) {
+							size_t ol = ao - s->avail_out;
+							uint32_t want = (gzs[gi] == IGZIP_GZIP || gzs[gi] == IGZIP_GZIP_NO_HDR) ? ri_crc32(0, IN, len) : ri_adler32(1, IN, len);
+							if (!verify_deflate_output(out, ol, gzs[gi], IN, len, 0, 0, NULL, 0, why, sizeof why)) {
+								v_violation(key, "COMP_OK but: %s", why);
+								nfail++;
+							} else if (vs_res.trailer_sum != want) {
+								v_violation(key, "stored checksum %08x != reference %08x", vs_res.trailer_sum, want);
+								nfail++;
+							}
+							v_count("producer_run_trailers_verified", 1);
+						} else if (r != STATELESS_OVERFLOW) {
+							v_violation(key, "returned %d", r);
+							nfail++;
+						}
+						g_reset();
+					}
+					v_nontrivial(v_mix(0x9a18 + li, level * 16 + gi));
+				}
+	}
 }
 
 /* ---- checksum arithmetic boundaries: every position of a payload whose running Adler-32 halves pass through
@@ -448,6 +498,7 @@ static void big_stream(int level, int kind)
 	snprintf(key, sizeof key, "big-stream level=%d data=%s total=2^32+77782", level, kind ? "mixed(period 3 MiB)" : "constant");
 	struct isal_zstream s;
 	isal_deflate_init(&s);
+	s.avail_in = 0; /* not touched by isal_deflate_init; the feeding loop below tests it */
 	s.level = level; s.level_buf = level ? lb : NULL; s.level_buf_size = level ? lvl_default[level] : 0; s.gzip_flag = IGZIP_GZIP;
 	uint64_t fed = 0, clen = 0;
 	uint32_t crc = 0;
@@ -538,7 +589,7 @@ int main(int argc, char **argv)
 	gs_init();
 	M_CHECK_CRC_STATE = 1;
 	wbuf = malloc(GS_MAXBODY + 4096);
-	IN = malloc(70016);
+	IN = malloc(140016);
 	OUT = malloc(2 * 70016 + 4096);
 	if (!v_part || !strcmp(v_part, "verifier")) {
 		/* hand-picked seeds: empty payload, stored, fixed, dynamic; payload whose CRC-32 contains a zero byte */
